@@ -304,10 +304,12 @@ def _fold_enums(ctx: Ctx, idx):
     it.globals.setdefault("NAMESPACE", "Ns")
     ge = em.functions.get("generate_enum")
 
+    doc = "first line\rSecond = 2,\u2028third"
+
     def enum(name, items):
-        return Record("Enum", {"name": name, "documentation": None, "since": None, "proposed": None, "deprecated": None,
+        return Record("Enum", {"name": name, "documentation": doc, "since": None, "proposed": None, "deprecated": None,
                                "supportsCustomValues": None, "type": Record("Type", {"kind": "base", "name": "string"}),
-                               "values": [Record("EnumItem", {"name": n, "value": v, "documentation": None, "since": None,
+                               "values": [Record("EnumItem", {"name": n, "value": v, "documentation": doc, "since": None,
                                                               "proposed": None, "deprecated": None}) for n, v in items]})
     cases = {
         "string": [("Empty", ""), ("QuickFix", "quickfix"), ("SourceFixAll", "source.fixAll"), ("Dollar", "$/x"), ("Upper", "UPPER")],
@@ -326,6 +328,11 @@ def _fold_enums(ctx: Ctx, idx):
             got = [int(x) for x in _re.findall(r"^\s*\w+ = (-?\d+),", text, _re.M)]
         want = [v for _n, v in items]
         n += 1
+        multi = [x for x in lines if isinstance(x, str) and len(x.splitlines()) > 1]
+        ctx.check(not multi, "emits-single-lines", f"generate_enum:{label}",
+                  f"an emitted line contains a line terminator (documentation is not split on every line boundary): {multi[:1]!r}: "
+                  "C# treats it as the end of the doc comment, what follows is compiled as code (extra enum members)",
+                  P_ENUMS, ge.lineno)
         ctx.check(sorted(map(str, got)) == sorted(map(str, want)), "enum-values-verbatim", f"generate_enum:{label}",
                   f"a {label} enumeration with the values {want} is emitted with the member values {got}", P_ENUMS, ge.lineno,
                   sample={"enum": label, "values": got})
